@@ -273,12 +273,12 @@ type propSpec struct {
 
 // which scenarios serve which property (DESIGN.md appendix B)
 var propScenarios = map[string]*regexp.Regexp{
-	"C05": regexp.MustCompile(`^(D1|D2|D3|D4|D5|D6|SPLIT|SEQ|MS)`),
-	"C06": regexp.MustCompile(`^(D1|D2|D3|D6|D7|SEQ|MS)`),
-	"C09": regexp.MustCompile(`^(D2|D4|D6|T9|SPLIT|SEQ)`),
-	"C10": regexp.MustCompile(`^(D8)`),
-	"C11": regexp.MustCompile(`^(D1|D2|D3|D5|D6|D7|D8|K2)`),
-	"C18": regexp.MustCompile(`^(D9|D7)`),
+	"C05": regexp.MustCompile(`^(D1|D2|D3|D4|D5|D6|SPLIT|SEQ|MS|FX)`),
+	"C06": regexp.MustCompile(`^(D1|D2|D3|D6|D7|SEQ|MS|FX)`),
+	"C09": regexp.MustCompile(`^(D2|D4|D6|T9|SPLIT|SEQ|FX)`),
+	"C10": regexp.MustCompile(`^(D8|FX)`),
+	"C11": regexp.MustCompile(`^(D1|D2|D3|D5|D6|D7|D8|K2|FX)`),
+	"C18": regexp.MustCompile(`^(D9|D7|FX)`),
 }
 
 func main() {
@@ -343,6 +343,11 @@ func main() {
 	if *list {
 		for _, s := range scs {
 			fmt.Println(s.Name)
+			if os.Getenv("BPX_LIST_SUBS") != "" {
+				for _, sub := range s.Pack {
+					fmt.Println("  " + sub.Name)
+				}
+			}
 		}
 		return
 	}
